@@ -157,8 +157,9 @@ class DocGen:
                 lines.extend(pre)
                 if not sub:
                     lines.append(pad + "%s = %s{ };%s" % (fmt_name(nm), rec, eol))
-                elif len(sub) == 1 and "\n" not in sub[0] and "#" not in sub[0] and rng.random() < 0.4:
-                    lines.append(pad + "%s = %s{ %s };%s" % (fmt_name(nm), rec, sub[0].strip(), eol))
+                elif len(sub) <= 3 and all("\n" not in x and "#" not in x and x.strip() for x in sub) and len(" ".join(x.strip() for x in sub)) < 60 and rng.random() < 0.4:
+                    # a one-line nested set (also with several members, also around another one-line set)
+                    lines.append(pad + "%s = %s{ %s };%s" % (fmt_name(nm), rec, " ".join(x.strip() for x in sub), eol))
                 else:
                     lines.append(pad + "%s = %s{" % (fmt_name(nm), rec))
                     lines.extend(sub)
@@ -180,6 +181,17 @@ class DocGen:
                 lines.append("")
         while lines and lines[-1] == "":
             lines.pop()
+        if cfg["attrpath"] and cfg.get("mixed_family", True) and depth == 0 and rng.random() < 0.12:
+            # mixed family: a name defined by an explicit set *and* by attrpath bindings (Nix merges them)
+            heads = [k for k, l in enumerate(lines) if l.startswith(pad) and not l.startswith(pad + " ") and l.rstrip().endswith("= {") and model._BARE.match(l.strip().split(" ")[0])]
+            if heads:
+                k = rng.choice(heads)
+                nm = lines[k].strip().split(" ")[0]
+                leaf = pad + "%s.%s = %s;" % (nm, rng.choice(["q8", "q9"]), self._inline_literal())
+                if rng.random() < 0.7:
+                    lines.append(leaf)  # explicit set first, attrpath leaf later
+                else:
+                    lines.insert(k, leaf)
         if lines and cfg["trailing_comment"] and rng.random() < 0.3 and not in_let:
             lines.append(pad + self.comment("t"))
         return lines
